@@ -54,6 +54,15 @@ def run(ctx):
                 op = f"intersection rc={rc} w={w}"
             else:
                 metric = bool(rng.integers(0, 2))
+                if t % 8 == 3:
+                    # a row made only of explicitly stored zeros (what A - B produces where B's strengths are 1)
+                    Ac = A.tocoo()
+                    r0 = int(Ac.row[0])
+                    data = Ac.data.copy()
+                    data[Ac.row == r0] = 0.0
+                    A = scipy.sparse.coo_matrix((data, (Ac.row, Ac.col)), shape=A.shape)
+                    metric = False
+                    case["A"] = [[int(i), int(j), float(v)] for i, j, v in zip(A.row, A.col, A.data)]
                 R = U.reset_local_connectivity(A.copy(), metric)
                 h = drv.add("resetlc", int(metric), n, *coo_tokens(A))
                 op = f"reset_local_connectivity metric={metric}"
@@ -84,8 +93,15 @@ def run(ctx):
         ka, kb = int(rng.integers(4, 9)), int(rng.integers(8, 14))
         ma = str(rng.choice(["euclidean", "manhattan"]))
         mb = str(rng.choice(["euclidean", "cosine", "chebyshev"]))
-        A = umap.UMAP(n_neighbors=ka, metric=ma, random_state=1, n_epochs=11).fit(X[:, :3])
-        B = umap.UMAP(n_neighbors=kb, metric=mb, random_state=2, n_epochs=11).fit(X[:, 2:])
+        if t % 3 == 0:
+            # tiny neighbourhoods in A, all of which have full strength in B (same view, larger k):
+            # A - B then holds rows consisting only of stored zeros
+            ka, kb, ma, mb = int(rng.choice([2, 3])), 12, "euclidean", "euclidean"
+            A = umap.UMAP(n_neighbors=ka, metric=ma, random_state=1, n_epochs=11).fit(X)
+            B = umap.UMAP(n_neighbors=kb, metric=mb, random_state=2, n_epochs=11, local_connectivity=float(ka + 1)).fit(X)
+        else:
+            A = umap.UMAP(n_neighbors=ka, metric=ma, random_state=1, n_epochs=11).fit(X[:, :3])
+            B = umap.UMAP(n_neighbors=kb, metric=mb, random_state=2, n_epochs=11).fit(X[:, 2:])
         ga, gb = sparse_to_dict(A.graph_), sparse_to_dict(B.graph_)
         case = {"n": n, "ka": ka, "kb": kb, "metric_a": ma, "metric_b": mb}
         for opn, fn in (("add", lambda p, q: p + q), ("mul", lambda p, q: p * q), ("sub", lambda p, q: p - q)):
